@@ -68,6 +68,7 @@ type observed struct {
 	called      bool
 	st          []byte
 	errKind     string // n | c | o
+	errText     string
 }
 
 type startRun struct {
